@@ -94,6 +94,11 @@ ReallocRes(b, f, c, p) ==
 
 \* ----- state machine ----------------------------------------------------------------
 Init == brk = 0 /\ fl = <<>> /\ live = [i \in {} |-> 0] /\ lastret = -1
+\* MallocP / ReallocP take the rounded payload in units (used directly by traces whose byte counts exceed TLC's integers)
+MallocP(id, p) ==
+   /\ id \notin DOMAIN live
+   /\ LET r == MallocRes(brk, fl, p) IN
+      /\ brk' = r.brk /\ fl' = r.fl /\ live' = live @@ (id :> r.chunk) /\ lastret' = r.chunk.a + 1
 Malloc(id, n) ==
    /\ id \notin DOMAIN live
    /\ LET r == MallocRes(brk, fl, RoundBytes(n)) IN
@@ -102,10 +107,16 @@ Free(id) ==
    /\ id \in DOMAIN live
    /\ LET r == FreeRes(brk, fl, live[id]) IN
       /\ brk' = r.brk /\ fl' = r.fl /\ live' = [i \in DOMAIN live \ {id} |-> live[i]] /\ lastret' = -1
+ReallocP(id, p) ==
+   /\ id \in DOMAIN live
+   /\ LET r == ReallocRes(brk, fl, live[id], p) IN
+      /\ brk' = r.brk /\ fl' = r.fl /\ live' = [live EXCEPT ![id] = r.chunk] /\ lastret' = r.chunk.a + 1
 Realloc(id, n) ==
    /\ id \in DOMAIN live
    /\ LET r == ReallocRes(brk, fl, live[id], RoundBytes(n)) IN
       /\ brk' = r.brk /\ fl' = r.fl /\ live' = [live EXCEPT ![id] = r.chunk] /\ lastret' = r.chunk.a + 1
+\* a request of nh * 2^20 + nl bytes (nl < 2^20): 2^20 is a multiple of the 64-byte granule, so only nl is rounded
+RoundWide(nh, nl) == IF nh = 0 THEN RoundBytes(nl) ELSE nh * 131072 + (IF nl % 64 = 0 THEN nl ELSE nl + (64 - (nl % 64))) \div 8
 Next == \/ \E id \in Ids, n \in ReqBytes : Malloc(id, n)
         \/ \E id \in Ids : Free(id)
         \/ \E id \in Ids, n \in ReqBytes : Realloc(id, n)
